@@ -15,7 +15,7 @@ PROFILES = {
     "C04": {"exec_fail": 0.2, "hooks": True, "ops": {"die": 0.1, "fault": 0.08, "check": 0.2},
             "req": {"ssr": 0.3, "reload": 0.1, "incr": 0.15, "set": 0.05, "kill": 0.08, "signal": 0.02, "rm": 0.05, "add": 0.05, "quit": 0.0, "ro": 0.15}},
     "C05": {"stubborn": 0.3, "ops": {"wake": 0.4, "check": 0.1},
-            "req": {"ssr": 0.3, "reload": 0.08, "incr": 0.1, "set": 0.05, "kill": 0.22, "signal": 0.03, "rm": 0.04, "add": 0.02, "quit": 0.01, "ro": 0.12}},
+            "req": {"ssr": 0.28, "reload": 0.14, "incr": 0.1, "set": 0.05, "kill": 0.2, "signal": 0.03, "rm": 0.04, "add": 0.02, "quit": 0.01, "ro": 0.1}},
     "C06": {"ops": {"raw": 0.1, "wake": 0.3}, "req": {}},
     "C08": {"stubborn": 0.2, "ops": {"sig": 0.06, "wake": 0.4}, "req": {"quit": 0.08}},
     "C09": {"ops": {"die": 0.15, "xkill": 0.08, "check": 0.18},
